@@ -174,6 +174,15 @@ func (n *Net) Arm(t Trigger) {
 	n.mu.Unlock()
 }
 
+// DisarmAll marks every trigger that has not fired yet as spent.
+func (n *Net) DisarmAll() {
+	n.mu.Lock()
+	for _, t := range n.triggers {
+		t.fired = true
+	}
+	n.mu.Unlock()
+}
+
 // Dials returns the number of dial attempts so far.
 func (n *Net) Dials() int { n.mu.Lock(); defer n.mu.Unlock(); return n.dials }
 
